@@ -103,22 +103,20 @@ theorem allocFromBin_spec {s : State} (h : Inv s) (i os n : Nat) (hi : i < binCo
 
 /-! ### `s_sba_free_to_bin` -/
 
-theorem purge_perm_page {fc : List Addr} (p : Nat)
-    (hfc : ∀ g ∈ fc, hdrSize ≤ g.off ∧ g.off < pageSize) :
-    (purgeLoop (p * pageSize + hdrSize) (p * pageSize + hdrSize + pageSize) fc.length fc).Perm
+theorem purge_perm_page {fc : List Addr} (p : Nat) {sz : Nat} (hsz : sz ∈ binSizes)
+    (hfc : ∀ g ∈ fc, SlotOff sz g.off) :
+    (purgeLoop (purgeStart (p * pageSize) sz) (purgeEnd (p * pageSize) sz) fc.length fc).Perm
       (fc.filter (fun g => g.page != p)) := by
-  have hps : 0 < p * pageSize + hdrSize := by rw [hdrSize_eq]; omega
-  refine (purgeLoop_perm _ _ hps fc).trans ?_
-  have : fc.filter (fun a => !inRange (p * pageSize + hdrSize) (p * pageSize + hdrSize + pageSize) a) =
+  refine (purgeLoop_perm _ _ (purgeHit_null p hsz) fc).trans ?_
+  have : fc.filter (fun a => !inRange (purgeStart (p * pageSize) sz) (purgeEnd (p * pageSize) sz) a) =
       fc.filter (fun g => g.page != p) := by
     apply List.filter_congr
     intro g hg
-    obtain ⟨g1, g2⟩ := hfc g hg
-    have := inPageRange_iff p g g1 g2
+    have := purgeHit_iff p g hsz (hfc g hg)
     unfold inRange
     by_cases e : g.page = p
     · simp [e, this.mpr e]
-    · have hn : ¬ (p * pageSize + hdrSize ≤ g.lin ∧ g.lin < p * pageSize + hdrSize + pageSize) := fun hh => e (this.mp hh)
+    · have hn : ¬ purgeHit g.lin (purgeStart (p * pageSize) sz) (purgeEnd (p * pageSize) sz) := fun hh => e (this.mp hh)
       simp [e, hn]
   rw [this]
 
@@ -142,12 +140,10 @@ theorem freeToBin_spec {s : State} (h : Inv s) (a : Addr) (n : Nat) (pg : Page)
       intro c hc e
       apply hnc
       rw [hc, Option.map_some, e]
-    have hfc : ∀ g ∈ (s.bins pg.bin).freeChunks, hdrSize ≤ g.off ∧ g.off < pageSize := by
-      intro g hg
-      obtain ⟨_, hs, _⟩ := h.free_ok _ g hg
-      have := sz_pos (binSize_mem hi)
-      exact ⟨hs.1, by have := hs.2.2; omega⟩
-    have hperm := purge_perm_page a.page hfc
+    have hfc : ∀ g ∈ (s.bins pg.bin).freeChunks, SlotOff (binSize pg.bin) g.off :=
+      fun g hg => (h.free_ok _ g hg).2.1
+    have hperm := purge_perm_page a.page (binSize_mem hi) hfc
+    rw [← h.size_eq pg.bin] at hperm
     have := inv_freeRelease h a n pg _ hm hpg hcnt hnc' hperm
     refine ⟨rfl, rfl, rfl, rfl, ?_⟩
     rw [setBin_setPage_comm, setPage_setPage]
